@@ -400,7 +400,6 @@ impl BytecodeBuilder {
                 | Op::StoreAutoAccessor { .. }
                 | Op::ApplyAutoAccessorDecorator { .. }
                 | Op::SpreadArray { .. }
-                | Op::CreateRestArray { .. }
                 | Op::CreateObjectRest { .. }
                 | Op::SpreadObject { .. }
                 | Op::TemplateConcat { .. }
